@@ -98,11 +98,25 @@ def check_bind(ctx, ci, m):
         ok = cfg.all_paths_raise() and bool(raises) and all("NotImplementedError" in norm(r) for r in raises)
         ctx.check(ok, R1, cons, "every path raises NotImplementedError", f"{m.qualname} can return normally: a {ci.name} gate is silently 'bound' to something instead of refusing", m)
         return
-    rets = returned_exprs(m.node)
-    if len(rets) != 1:
-        ctx.undecided(R2, cons, f"expected a single return in {m.qualname}", m)
+    from ..common import exit_exprs
+
+    rets = exit_exprs(m.node)
+    if not rets:
+        ctx.undecided(R2, cons, f"no return in {m.qualname}", m)
         return
-    r = rets[0]
+    if len(rets) > 1:
+        # several exits: each one has to be the bound object; an exit handing back `self` un-bound skips the delegation, and with
+        # it the refusal of Power / Exponential gates further down
+        for i, r in enumerate(rets):
+            if isinstance(r, ast.Name) and r.id == "self":
+                ctx.violation(R2, cons + ":exit:self", f"{m.qualname} has an exit that returns the object itself without binding (`return self`, line {r.lineno}): nothing is delegated on that path, so a wrapped gate that must refuse binding (Power, Exponential) is silently accepted and the result is not built from the caller's map", f"{m.module.relpath}:{r.lineno}")
+            else:
+                _judge_bind_exit(ctx, ci, m, mapname, r, cons + ":exit:" + norm(r)[:60])  # keyed by content: the two views may list the exits in a different order
+        return
+    _judge_bind_exit(ctx, ci, m, mapname, rets[0], cons)
+
+
+def _judge_bind_exit(ctx, ci, m, mapname, r, cons):
     d = Defs(m.node)
     # (b) substitute each parameter
     if isinstance(r, ast.Call) and norm(r.func) == "self.replace_params" and len(r.args) == 1:
